@@ -114,6 +114,9 @@ class C11(core.Check):
         # string reallocation and compaction
         c.append({'ops': [['lets', 'Q$', 'one'], ['lete', 'X$', [2], 'two'], ['lets', 'Q$', 'three'],
                           ['lets', 'Z$', 'four'], ['lets', 'Q$', 'x'], ['fre'], ['dump'], ['clear'], ['dump']]})
+        # a computed empty string next to the lowest live string must stay empty through a collection (seed C11b)
+        c.append({'ops': [['lets', 'Q$', 'abcdef'], ['lets', 'X$', ''], ['lete', 'Z$', [2], ''], ['fre'], ['dump'],
+                          ['peekv', 'X$', [], 0], ['peekv', 'Z$', [2], 0], ['peekv', 'Q$', [], 0]]})
         return c
 
     def rand_name(self, rng):
@@ -228,7 +231,7 @@ class C11(core.Check):
             elif r < 0.87:
                 nm, idx = cell()
                 ops.append(['varptrs', nm, idx])
-            elif r < 0.96:
+            elif r < 0.93:
                 nm, idx = cell()
                 ops.append(['peekv', nm, idx, rng.randrange(au.SIZE[canon(nm)[-1]])])
             else:
@@ -296,6 +299,15 @@ class C11(core.Check):
         m = s._impl.memory
         ref = RefVars()
         tr = []
+        last_str = [None]
+
+        def vexpr(nm, idx, val):
+            e = au.value_expr(canon(nm), val, last_str[0])
+            if canon(nm)[-1] == '$' and val != '' and not idx:
+                last_str[0] = nm
+            elif canon(nm)[-1] == '$' and val != '':
+                last_str[0] = None      # the lowest string now belongs to an element: fall back
+            return e
         with core.time_limit(120):
             for op in case['ops']:
                 limit = m.strings.current
@@ -304,14 +316,14 @@ class C11(core.Check):
                 kind = op[0]
                 if kind == 'lets':
                     nm, val = op[1], op[2]
-                    rec['err'], _ = self.sess.run('%s=%s' % (nm, au.value_expr(canon(nm), val)))
+                    rec['err'], _ = self.sess.run('%s=%s' % (nm, vexpr(nm, [], val)))
                     rec['exp'] = 0
                     if not rec['err']:
                         rec['b'] = list(bytearray(m.scalars.view_buffer(canon(nm).encode('ascii'))))
                     ref.put(canon(nm), [], val)
                 elif kind == 'lete':
                     nm, idx, val = op[1], op[2], op[3]
-                    rec['err'], _ = self.sess.run('%s%s=%s' % (nm, au.subs(idx), au.value_expr(canon(nm), val)))
+                    rec['err'], _ = self.sess.run('%s%s=%s' % (nm, au.subs(idx), vexpr(nm, idx, val)))
                     rec['exp'] = ref.arr.access(canon(nm), idx, free)
                     if not rec['err']:
                         rec['b'] = list(bytearray(m.arrays.view_buffer(canon(nm).encode('ascii'), list(idx))))
@@ -333,6 +345,7 @@ class C11(core.Check):
                 elif kind == 'clear':
                     rec['err'], _ = self.sess.run('CLEAR')
                     rec['exp'] = 0
+                    last_str[0] = None
                     ref = RefVars()
                 elif kind == 'swap':
                     n1, i1, n2, i2 = op[1], op[2], op[3], op[4]
